@@ -243,7 +243,10 @@ pub fn stats_to_json(st: &Stats, digests: &[(u64, u64)]) -> J {
 /// Worker mode (other build variants): explore, write violations + per-pattern digests to files.
 pub fn worker(out_prefix: &str) -> i32 {
     let run = Run::new("C06", "exploration");
-    let (st, digests) = explore(&run);
+    let (st, mut digests) = explore(&run);
+    // one digest per (profile, pattern, flags) key: a pattern that two families generate is evaluated twice
+    digests.sort();
+    digests.dedup_by_key(|d| d.0);
     let mut bin = Vec::with_capacity(digests.len() * 16);
     for (a, b) in &digests {
         bin.extend_from_slice(&a.to_le_bytes());
